@@ -135,7 +135,9 @@ fn check_llr(c: &LlrCase, p: &mut Probe) -> Check {
         p.class("skipped-out-of-floating-range");
         return Ok(());
     }
-    let l = guarded(|| Psk8Demodulator::from_noise_sigma(sigma).demodulate(&[y])).map_err(|e| Fail::new("panic", format!("8PSK demodulate panicked: {e}")))?;
+    // both public constructors of the demodulators, alternating with the case
+    let via_new = c.re.0.to_bits() & 1 == 1;
+    let l = guarded(|| if via_new { Psk8Demodulator::new(sigma).demodulate(&[y]) } else { Psk8Demodulator::from_noise_sigma(sigma).demodulate(&[y]) }).map_err(|e| Fail::new("panic", format!("8PSK demodulate panicked: {e}")))?;
     ensure!(l.len() == 3, "llr-count", "one symbol gives {} LLRs", l.len());
     let tol = 64.0 * f64::EPSILON * (rmag * sc + 1.0);
     let mut soft = false;
@@ -148,7 +150,7 @@ fn check_llr(c: &LlrCase, p: &mut Probe) -> Check {
             soft = true;
         }
     }
-    let lb = BpskDemodulator::from_noise_sigma(sigma).demodulate(&[y.re]);
+    let lb = if via_new { BpskDemodulator::new(sigma).demodulate(&[y.re]) } else { BpskDemodulator::from_noise_sigma(sigma).demodulate(&[y.re]) };
     ensure!(lb.len() == 1, "llr-count", "BPSK: one symbol gives {} LLRs", lb.len());
     let want = -2.0 * y.re * sc;
     ensure!((lb[0] - want).abs() <= 4.0 * f64::EPSILON * want.abs(), "bpsk-llr", "BPSK LLR at r = {}, sigma = {sigma:e}: {} but -2r/sigma^2 = {want}", y.re, lb[0]);
@@ -213,7 +215,7 @@ fn check_seq(c: &SeqCase, p: &mut Probe) -> Check {
         let b = splitmix(a);
         z + Complex::new(unit(a), unit(b)) * (3.0 * sigma).min(50.0)
     }).collect();
-    let dem = Psk8Demodulator::from_noise_sigma(sigma);
+    let dem = if c.salt & 4 == 4 { Psk8Demodulator::new(sigma) } else { Psk8Demodulator::from_noise_sigma(sigma) };
     let ln = guarded(|| dem.demodulate(&noisy)).map_err(|e| Fail::new("panic", format!("8PSK demodulate panicked: {e}")))?;
     ensure!(ln.len() == 3 * noisy.len(), "llr-count", "{} symbols give {} LLRs", noisy.len(), ln.len());
     let sc = 1.0 / (sigma * sigma);
@@ -235,7 +237,7 @@ fn check_seq(c: &SeqCase, p: &mut Probe) -> Check {
     }
     let s = guarded(|| with_layout(&gbits, GF2::one(), lay, |v| if c.salt & 2 == 2 { BpskModulator::default().modulate(&v) } else { BpskModulator::new().modulate(&v) })).map_err(|e| Fail::new("panic", format!("BPSK modulate panicked (bit array layout {}): {e}", layout_name(lay))))?;
     ensure!(s.len() == c.bits.len() && s.iter().zip(&c.bits).all(|(x, &b)| *x == if b == 1 { 1.0 } else { -1.0 }), "bpsk-map", "BPSK modulator maps {:?} to {s:?} (bit array layout {})", c.bits, layout_name(lay));
-    let bd = BpskDemodulator::from_noise_sigma(sigma);
+    let bd = if c.salt & 8 == 8 { BpskDemodulator::new(sigma) } else { BpskDemodulator::from_noise_sigma(sigma) };
     let l = bd.demodulate(&s);
     let hd: Vec<u8> = l.iter().map(|&x| u8::from(x <= 0.0)).collect();
     ensure!(hd == c.bits, "bpsk-roundtrip", "BPSK hard decisions {hd:?} differ from the bits {:?}", c.bits);
